@@ -90,9 +90,35 @@ def compare(run, name, cases_s, res_s, cases_r, res_r, attr, what):
     return nt
 
 
+def addfile_case(job):
+    """records of file A alone vs. A plus a second GVF file B (in both orders, B with and without a .idx)."""
+    import shutil, refgen, drive
+    refname, a_recs, b_recs, order, with_idx = job
+    d = vlib.worker_dir() / 'c05f'
+    shutil.rmtree(d, ignore_errors=True)
+    d.mkdir()
+    fa, fb = d / 'a.gvf', d / 'b.gvf'
+    refgen.write_gvf(fa, [v.gvf() for v in a_recs], 'parseVEP', 'gSNP')
+    files = [fa]
+    if b_recs:
+        refgen.write_gvf(fb, [v.gvf() for v in b_recs], 'parseVEP', 'gINDEL')
+        if with_idx:
+            r = drive.run(['indexGVF', '-i', fb, '--quiet'])
+            if not r['ok']:
+                return dict(ok=False, exc='indexGVF: ' + str(r['exc']), seqs=None)
+        files = [fa, fb] if order == 'ab' else [fb, fa]
+    import ordctl
+    ordctl.order_control(0)
+    r = drive.call_variant(d / 'o.fasta', files, refdir=E.ref_dir(refname), cleavage=CC.CFG_NONE.argv())
+    return dict(ok=r['ok'], exc=r['exc'], seqs=sorted(r['peptides'] or {}) if r['ok'] else None)
+
+
 def replay(path):
     import json
     r = json.load(open(path))
+    if r.get('kind') == 'addfile':
+        print(r['key'], '\n', r['what'])
+        return
     cs, cr = CC.case_from_replay(r['strict']), CC.case_from_replay(r['relaxed'])
     a, b = E.execute(cs), E.execute(cr)
     print('edge   :', r.get('edge'), '\nkey    :', r['key'])
@@ -233,6 +259,48 @@ def main():
                                   f'peptide {pep} appears only when {added} is added but no entry is on that backbone: {rb["peptides"][pep]}',
                                   dict(strict=CC.case_to_replay(a), relaxed=CC.case_to_replay(b), edge='add-unit'))
         run.block('ADDUNIT/R7', len(pairs), nt, True, deviations=3, snvs=len(snvs), fusions=len(fus), circs=len(circs))
+
+    # ---- adding a GVF file: A alone vs A + B (both orders; B with / without .idx), records of one transcript ----
+    if not run.only or 'addfile' in run.only:
+        ref = panel.get('R1')
+        L = ref.tx_len('ENST01')
+        step = 17 if run.tier == 'quick' else 7
+        pos = list(range(20, L - 12, step))
+        jobs, meta = [], []
+        for i, p in enumerate(pos):
+            a = tuple(E.small_alphabet(ref, 'ENST01', p, reduced=True)[:2][i % 2:i % 2 + 1])
+            for qd in (4, 9, 40):
+                if p + qd >= L - 3:
+                    continue
+                b = (E.small_alphabet(ref, 'ENST01', p + qd, reduced=True)[(i + 1) % 5],)
+                jobs.append(('R1', a, (), 'a', False))
+                meta.append(('base', a, b, None, None))
+                for order in ('ab', 'ba'):
+                    for with_idx in (False, True):
+                        jobs.append(('R1', a, b, order, with_idx))
+                        meta.append(('both', a, b, order, with_idx))
+        res = vlib.pmap(addfile_case, jobs, jobs=run.jobs)
+        errs = vlib.harness_errors(res)
+        if errs:
+            raise RuntimeError(errs[0])
+        nt = 0
+        base = None
+        for (kind, a, b, order, with_idx), r in zip(meta, res):
+            if kind == 'base':
+                base = r
+                continue
+            key = f'addfile/R1/{a[0].id()}+{b[0].id()}/order={order}/idx={int(with_idx)}'
+            rep = dict(kind='addfile', a=[v.gvf() for v in a], b=[v.gvf() for v in b], order=order, with_idx=with_idx)
+            if not (base['ok'] and r['ok']):
+                if base['ok'] != r['ok']:
+                    run.violation(key + '|one-crashes', f'A alone ok={base["ok"]}, with file B ok={r["ok"]}: {base["exc"] or r["exc"]}', rep)
+                continue
+            nt += 1 if r['seqs'] else 0
+            lost = set(base['seqs']) - set(r['seqs'])
+            if lost:
+                run.violation(key + f'|lost:{",".join(sorted(lost)[:3])}',
+                              f'adding GVF file B ({b[0].id()}) removed peptides of file A ({a[0].id()}): {sorted(lost)[:6]}', rep)
+        run.block('ADDFILE/R1', len(jobs), nt, True, deviations=2, orders='ab,ba', idx='with/without')
 
     # ---- one large block, limits disabled: chain of nested sets over 12 variants ---------------------
     if not run.only or 'chain' in run.only:
